@@ -14,6 +14,7 @@ def main():
     strings = None
     if driver_ok:
         (_dis, _outs), strings = P.stream_parse(chk, 5 if chk.thorough else 4, 4 if chk.thorough else 3, 30000 if chk.thorough else 3000)
+        strings = list(strings) + PL.hostile_strings()
         PL.stream_lr(chk, strings)
         PL.stream_lex(chk, strings)
         cases = P.build_cases(chk, 5000 if chk.thorough else 1000, depth=6 if chk.thorough else 5)
@@ -22,7 +23,7 @@ def main():
         chk.broken.append({'kind': 'correspondence', 'stream': 'plural-*', 'problem': 'driver could not be rebuilt from the regenerated model'})
     mult = 4 if chk.broken else 1
     if strings is None:
-        strings = list(P.token_strings(chk.rng, 4)) + list(P.char_strings(3))
+        strings = list(P.token_strings(chk.rng, 4)) + list(P.char_strings(3)) + PL.hostile_strings()
     cex, tried = P.falsify_parse_eval(chk, (200000 if chk.thorough else 30000) * mult, strings)
     chk.evaluations += tried
     chk.coverage['falsifier'] = {'strings_vs_reference_parser_and_C_evaluator': tried, 'found': cex is not None}
